@@ -332,6 +332,11 @@ C03_Assertion(o) ==
         /\ Has(o.snap0, d.cred) /\ Get(o.snap0, d.cred).rp = Req(o).rp
         /\ d.user = Get(o.snap0, d.cred).user
 
+\* "the user handle returned is the one stored with it", for every later authentication too: a successful assertion
+\* leaves every stored record as it was - id, RP, user handle, key - except the signature counter of the one it used.
+C03_StoredRecordKept(o) ==
+    (IsGa(o) /\ EndOk(o) /\ Finished(o) /\ o.b.api # "u2f") => UnchangedButCounter(o, EndD(o).cred)
+
 Eligible(o) == { i \in 1..Len(o.snap0) : /\ o.snap0[i].rp = Req(o).rp
                                         /\ (NonEmptyAllow(o) => o.snap0[i].id \in ToSetA(Req(o).allow)) }
 
@@ -533,6 +538,7 @@ Violated(o) ==
     \cup (IF ~C02_SupportedListAccepted(o) THEN {"C02.SupportedListAccepted"} ELSE {})
     \cup (IF ~C03_Assertion(o) THEN {"C03.Assertion"} ELSE {})
     \cup (IF ~C03_NoEligibleCredential(o) THEN {"C03.NoEligibleCredential"} ELSE {})
+    \cup (IF ~C03_StoredRecordKept(o) THEN {"C03.StoredRecordKept"} ELSE {})
     \cup (IF ~C09_Results(o) THEN {"C09.Results"} ELSE {})
     \cup (IF ~C09_ResultsPresent(o) THEN {"C09.ResultsPresent"} ELSE {})
     \cup (IF ~C06_NoSecretInOutput(o) THEN {"C06.NoSecretInOutput"} ELSE {})
